@@ -4,6 +4,7 @@ CONSTANTS
   MaxLen <- MC_MaxLen
   DTs <- MC_DTs
   Kinds <- MC_Kinds
+  Hows <- MC_Hows
 INVARIANT HistoryFree
 INVARIANT ImplRefines
 INVARIANT CacheIsTypeFree
